@@ -1,6 +1,6 @@
 (** C06 - further proofs about Model/Interleave.v: static redirect templates under every schedule;
     consecutive cursor values => exact per-target counts; [window] = [map slot o consecutive]. *)
-From Coq Require Import String List NArith Bool Arith Lia.
+From Coq Require Import String List NArith Bool Arith Lia Permutation.
 From Fabio Require Import Lib.Outcome Lib.Bytes Model.Interleave Model.GlobCacheC06 Proofs.Interleave Proofs.GlobCacheC06.
 Import ListNotations.
 
@@ -276,3 +276,115 @@ Example rnd_pick_nonvacuous :
   map rn_picks (snd (run (rn_step (fun st n => (S st, st mod n)) [0; 1; 1]) [0; 1; 0; 1] 4 [rn_init 2; rn_init 2]))
   = [[Ok 1; Ok 0]; [Ok 1; Ok 1]].
 Proof. vm_compute. reflexivity. Qed.
+
+(* ------------------------------------------------------------------ rr picks per table generation *)
+Lemma concat_map_upd : forall {L} (f : L -> list N) ts i l l' x, nth_error ts i = Some l -> f l' = f l ++ x ->
+  Permutation (concat (map f (upd ts i l'))) (concat (map f ts) ++ x).
+Proof.
+  intros L f. induction ts as [|a ts IH]; intros [|i] l l' x H E; cbn in H; try discriminate.
+  - inversion H; subst. cbn. rewrite E. rewrite <- !app_assoc. apply Permutation_app_head. apply Permutation_app_comm.
+  - cbn. rewrite <- app_assoc. apply Permutation_app_head. eapply IH; eassumption.
+Qed.
+Lemma concat_map_upd_same : forall {L} (f : L -> list N) ts i l l', nth_error ts i = Some l -> f l' = f l ->
+  concat (map f (upd ts i l')) = concat (map f ts).
+Proof.
+  intros L f. induction ts as [|a ts IH]; intros [|i] l l' H E; cbn in H; try discriminate.
+  - inversion H; subst. cbn. now rewrite E.
+  - cbn. f_equal. eapply IH; eassumption.
+Qed.
+
+Definition tb_wf (s : tb_shared) (ts : list tb_local) : Prop :=
+  tb_cur s < length (tb_cursors s)
+  /\ Forall (fun c => (c < two64)%N) (tb_cursors s)
+  /\ Forall (fun l => tb_at l = TPick -> tb_reg l < length (tb_cursors s)) ts.
+
+Lemma nth_app_zero : forall (l : list N) g, nth g (l ++ [0%N]) 0%N = nth g l 0%N.
+Proof.
+  intros l g. destruct (Nat.lt_ge_cases g (length l)) as [H|H].
+  - now rewrite app_nth1.
+  - rewrite app_nth2 by assumption. rewrite (nth_overflow l) by assumption.
+    destruct (g - length l) as [|[|k]]; reflexivity.
+Qed.
+Lemma nth_upd_same : forall (l : list N) g v, g < length l -> nth g (upd l g v) 0%N = v.
+Proof. induction l as [|a l IH]; intros [|g] v H; cbn in *; try lia; try reflexivity. apply IH. lia. Qed.
+Lemma nth_upd_other : forall (l : list N) g h v, g <> h -> nth g (upd l h v) 0%N = nth g l 0%N.
+Proof. induction l as [|a l IH]; intros [|g] [|h] v H; cbn; try reflexivity; try congruence. apply IH. congruence. Qed.
+Lemma cur_lt : forall s g, Forall (fun c => (c < two64)%N) (tb_cursors s) -> (cur_of s g < two64)%N.
+Proof.
+  intros s g H. unfold cur_of. destruct (Nat.lt_ge_cases g (length (tb_cursors s))) as [L|L].
+  - eapply (proj1 (Forall_forall _ _) H). now apply nth_In.
+  - rewrite nth_overflow by assumption. unfold two64. lia.
+Qed.
+
+Lemma tb_step_wf : forall s ts i l, tb_wf s ts -> nth_error ts i = Some l ->
+  tb_wf (fst (tb_step s l)) (upd ts i (snd (tb_step s l))).
+Proof.
+  intros s ts i l (W1 & W2 & W3) H.
+  assert (Wl : tb_at l = TPick -> tb_reg l < length (tb_cursors s)) by (eapply (proj1 (Forall_forall _ _) W3); eapply nth_error_In; eassumption).
+  unfold tb_step. destruct (tb_at l) eqn:At; cbv zeta; cbn [fst snd]; unfold tb_wf; cbn [tb_cur tb_cursors].
+  - split; [assumption|]. split; [assumption|]. apply Forall_upd; [assumption|]. cbn. intros _. assumption.
+  - split; [now rewrite upd_length|]. split.
+    + apply Forall_upd; [assumption|]. apply N.mod_lt. unfold two64. lia.
+    + rewrite upd_length. apply Forall_upd; [assumption|]. cbn. destruct (tb_todo l) as [|[|k]]; discriminate.
+  - rewrite app_length. cbn [length]. split; [lia|]. split.
+    + apply Forall_app. split; [assumption|]. constructor; [unfold two64; lia | constructor].
+    + apply Forall_upd.
+      * eapply Forall_impl; [|exact W3]. cbn. intros x Hx Hy. specialize (Hx Hy). lia.
+      * cbn. destruct (tb_todo l) as [|[|k]]; discriminate.
+  - split; [assumption|]. split; [assumption|]. apply Forall_upd; [assumption|]. rewrite At. discriminate.
+Qed.
+
+(* rr_exact_per_table: every schedule of lookups (GetTable, then fetch-and-add on that table's route) and
+   table replacements (one atomic publication each), any number of goroutines and writers: for EVERY
+   table generation g the picks it served are exactly the next j consecutive values of ITS cursor, each
+   once (a generation not yet installed has cursor 0 and is installed with cursor 0) *)
+Theorem rr_exact_per_table_l : forall g sched s ts, tb_wf s ts ->
+  exists j, Permutation (seen_gen g (snd (run tb_step sched s ts))) (seen_gen g ts ++ consecutive (cur_of s g) j)
+            /\ cur_of (fst (run tb_step sched s ts)) g = N.modulo (cur_of s g + N.of_nat j) two64.
+Proof.
+  intros g sched. induction sched as [|i sched IH]; intros s ts W; cbn [run].
+  - exists 0. cbn. rewrite app_nil_r, N.add_0_r. split; [reflexivity|]. symmetry. apply N.mod_small. apply cur_lt. apply W.
+  - unfold step1. destruct (nth_error ts i) as [l|] eqn:E; [|apply IH; assumption].
+    pose proof (tb_step_wf s ts i l W E) as W'.
+    destruct W as (W1 & W2 & W3).
+    assert (Wl : tb_at l = TPick -> tb_reg l < length (tb_cursors s)) by (eapply (proj1 (Forall_forall _ _) W3); eapply nth_error_In; eassumption).
+    destruct (tb_step s l) as [s' l'] eqn:St. cbn [fst snd] in W'.
+    destruct (IH s' (upd ts i l') W') as [j [P Q]].
+    unfold tb_step in St. destruct (tb_at l) eqn:At; inversion St; subst s' l'; clear St.
+    + (* GetTable *) exists j. unfold seen_gen in *. rewrite (concat_map_upd_same (seen_of g) ts i l _ E) in P by reflexivity.
+      split; assumption.
+    + (* the pick *) destruct (Nat.eq_dec (tb_reg l) g) as [Eg|Eg].
+      * subst g. exists (S j).
+        assert (C' : cur_of {| tb_cur := tb_cur s; tb_cursors := upd (tb_cursors s) (tb_reg l) (N.modulo (cur_of s (tb_reg l) + 1) two64) |} (tb_reg l)
+                     = N.modulo (cur_of s (tb_reg l) + 1) two64).
+        { unfold cur_of at 1. cbn [tb_cursors]. apply nth_upd_same. now apply Wl. }
+        rewrite C' in P, Q. split.
+        -- rewrite P. rewrite (consecutive_S _ j (cur_lt s (tb_reg l) W2)).
+           unfold seen_gen. rewrite (concat_map_upd (seen_of (tb_reg l)) ts i l _ [cur_of s (tb_reg l)] E).
+           ++ rewrite <- app_assoc. reflexivity.
+           ++ unfold seen_of. cbn [tb_seen]. rewrite filter_app, map_app. cbn [filter fst]. rewrite Nat.eqb_refl. reflexivity.
+        -- rewrite Q. rewrite N.add_mod_idemp_l by (unfold two64; lia). f_equal. lia.
+      * exists j.
+        assert (C' : cur_of {| tb_cur := tb_cur s; tb_cursors := upd (tb_cursors s) (tb_reg l) (N.modulo (cur_of s (tb_reg l) + 1) two64) |} g = cur_of s g).
+        { unfold cur_of at 1. cbn [tb_cursors]. apply nth_upd_other. congruence. }
+        rewrite C' in P, Q. split; [|assumption].
+        unfold seen_gen in *. rewrite (concat_map_upd_same (seen_of g) ts i l _ E) in P; [assumption|].
+        unfold seen_of. cbn [tb_seen]. rewrite filter_app, map_app. cbn [filter fst].
+        destruct (Nat.eqb_spec (tb_reg l) g); [congruence|]. cbn. now rewrite app_nil_r.
+    + (* SetTable *) exists j.
+      assert (C' : cur_of {| tb_cur := length (tb_cursors s); tb_cursors := tb_cursors s ++ [0%N] |} g = cur_of s g).
+      { unfold cur_of. cbn [tb_cursors]. apply nth_app_zero. }
+      rewrite C' in P, Q. split; [|assumption].
+      unfold seen_gen in *. rewrite (concat_map_upd_same (seen_of g) ts i l _ E) in P by reflexivity. assumption.
+    + exists j. unfold seen_gen in *. rewrite (concat_map_upd_same (seen_of g) ts i l _ E) in P by reflexivity.
+      split; assumption.
+Qed.
+
+Example rr_exact_per_table_nonvacuous :
+  let r := run tb_step [0; 2; 1; 0; 1; 0; 1; 0; 1] {| tb_cur := 0; tb_cursors := [5%N] |} [tb_reader 2; tb_reader 2; tb_writer 1] in
+  tb_wf {| tb_cur := 0; tb_cursors := [5%N] |} [tb_reader 2; tb_reader 2; tb_writer 1]
+  /\ map tb_seen (snd r) = [[(0, 5%N); (1, 1%N)]; [(1, 0%N); (1, 2%N)]; []] /\ tb_cursors (fst r) = [6%N; 3%N].
+Proof.
+  split; [|vm_compute; split; reflexivity].
+  split; [cbn; lia|]. split; [repeat constructor|]. repeat constructor; cbn; discriminate.
+Qed.
